@@ -340,7 +340,7 @@ class Native:
         if not requests:
             return []
         inp = '\n'.join(json.dumps(r) for r in requests) + '\n'
-        p = subprocess.run([self.binary], input=inp.encode(), stdout=subprocess.PIPE, stderr=subprocess.PIPE, timeout=600)
+        p = subprocess.run([self.binary], input=inp.encode(), stdout=subprocess.PIPE, stderr=subprocess.PIPE, timeout=3600)
         lines = p.stdout.decode().strip().split('\n')
         if len(lines) != len(requests):
             raise RuntimeError('native oracle answered %d of %d requests; stderr: %s' % (len(lines), len(requests), p.stderr.decode()[-500:]))
